@@ -18,7 +18,11 @@ class Spec(simcheck.SimSpec):
                 # results of an earlier run in the environment: dependencies
                 # that are re-executed must still finish first
                 {'label': 'initial-env-done', 'family': 'well',
-                 'init_done': True}]
+                 'init_done': True},
+                # same tasks, same backend object, scheduled again by a new
+                # Scheduler with more dependencies than the first time
+                {'label': 'second-graph-same-backend', 'family': 'well',
+                 'second_graph': True}]
     rule = ('one evaluation = one simulated execution of Scheduler.schedule() '
             'on a seeded acyclic hard/soft graph of <= 9 probe tasks with '
             'scripted outcomes, 1-5 workers, under a seeded policy (random '
@@ -46,7 +50,8 @@ class Spec(simcheck.SimSpec):
             return sched.gen_scenario(rng, family=fam['family'],
                                       init_env=True,
                                       init_statuses=('DONE',))
-        return sched.gen_scenario(rng, family=fam['family'])
+        return sched.gen_scenario(rng, family=fam['family'],
+                                  second_graph=fam.get('second_graph', False))
 
     def draw_chooser(self, rng, scn):
         return sched.draw_chooser(rng, scn)
